@@ -107,7 +107,24 @@ def filter_equiv(ctx):
             f_ir = filter_ir(t)
             ok, n, wit = equivalent(f_ir, _spec_ir(spec_src))
         except Unsupported as exc:
-            raise Unknown(c, f"filter outside the decidable fragment (+ - ^ & | abs, comparisons): {exc}", t.node)
+            # not in the finite-state fragment (e.g. written with popcounts or as a method of a helper object): decide it
+            # for ALL blade pairs up to width 5 by applying the filter function itself
+            from ..products import bounded_filter_table
+            try:
+                table, _ = bounded_filter_table(repo, row.codegen, [1, -1, 1, 0, 1])
+            except (ValueError, NoValue) as exc2:
+                raise Unknown(c, f"filter outside the decidable fragment (+ - ^ & | abs, comparisons): {exc}; not evaluable either: {exc2}", t.node)
+            spec = eval("lambda kx, ky: " + spec_src)
+            bad = [(kx, ky) for (kx, ky), (keep, ko) in table.items() if keep != bool(spec(kx, ky)) or ko != kx ^ ky]
+            if bad:
+                kx, ky = bad[0]
+                ctx.violation(c, f"the {opname} filter is not the grade selection '{spec_src}': for blades kx={kx:#b}, ky={ky:#b} the filter "
+                                 f"says {table[kx, ky][0]} (key-out {table[kx, ky][1]:#b}) but the definition says {bool(spec(kx, ky))} "
+                                 f"({len(bad)} of {len(table)} blade pairs of a 5-dimensional algebra differ)", t.node, spec=spec_src)
+            else:
+                ctx.ok(c, t.node, spec=spec_src, all_widths=False, decided_for="all 1024 blade pairs of a 5-dimensional algebra "
+                       "(the filter is not in the finite-state fragment)")
+            continue
         if ok:
             ctx.ok(c, t.node, predicate=un(t.filter) if t.filter is not None else "None", spec=spec_src,
                    automaton_states=n, all_widths=True)
@@ -126,7 +143,29 @@ def check_commutator(ctx, repo, opname, want_equal_signs):
     c = f"codegen.{row.codegen}#filter"
     f = t.filter
     if not isinstance(f, ast.Lambda) or len(f.args.args) != 3:
-        raise Unknown(c, "filter is not a three-argument lambda", t.node)
+        # not a lambda (a nested def with statements, a method of a helper object, ...): apply the function itself to
+        # every blade pair of two representative algebras with their real sign tables
+        from ..products import bounded_filter_table, spec_sign
+        bad, total = [], 0
+        for sig in ([1, -1, 1], [0, 1, -1, 1]):
+            try:
+                table, _ = bounded_filter_table(repo, row.codegen, sig)
+            except (ValueError, NoValue) as exc:
+                raise Unknown(c, f"filter is not a three-argument lambda and cannot be applied: {exc}", t.node)
+            for (kx, ky), (keep, ko) in table.items():
+                s1, s2 = spec_sign(kx, ky, sig), spec_sign(ky, kx, sig)
+                if s1 == 0 or s2 == 0:
+                    continue
+                total += 1
+                if keep != ((s1 == s2) == want_equal_signs) or ko != kx ^ ky:
+                    bad.append((sig, kx, ky, keep))
+        if bad:
+            sig, kx, ky, keep = bad[0]
+            ctx.violation(c, f"the {opname} filter {'keeps' if keep else 'drops'} the pair kx={kx:#b}, ky={ky:#b} in signature {sig}, whose blades "
+                             f"{'commute' if spec_sign(kx, ky, sig) == spec_sign(ky, kx, sig) else 'anticommute'} ({len(bad)} of {total} pairs wrong)", t.node)
+        else:
+            ctx.ok(c, t.node, decided_for=f"all {total} blade pairs with non-zero product of two representative algebras")
+        return
     p0, p1 = f.args.args[0].arg, f.args.args[1].arg
     table = {}
     for s1 in (1, -1):
